@@ -34,8 +34,10 @@ TTagSep == /\ IsEv("tagsep")
            /\ ~r.independent.token_on_close_state /\ ~r.independent.closing_on_state
            /\ r.nonce_differs_from_close_tag
 TCid == IsEv("cid") /\ r.changed = r.expect_changed
+(* hostile channel-id text: a value or an error, never a panic (a padding-free spelling of the same id is a value) *)
+TCidParse == IsEv("cidparse") /\ r.out \in {"err", "other", "same"}
 TKeygen == IsEv("keygen") /\ r.out = "ok" /\ AllTrue(r.facts)
-TNext == TNonce \/ TCrafted \/ TStateNonce \/ TNonceDecode \/ TTagSep \/ TCid \/ TKeygen
+TNext == TNonce \/ TCrafted \/ TStateNonce \/ TNonceDecode \/ TTagSep \/ TCid \/ TCidParse \/ TKeygen
 TSpec == l = 1 /\ [][TNext]_l
 Accepted ==
   LET n == TLCGet("stats").diameter - 1 IN
